@@ -310,7 +310,7 @@ def main(pid, tier, seed, replay_path=None):
         cov.update(l3_refresh_histories=l3res["histories"], l3_refresh_answers=l3res["evaluations"], l3_refresh_kinds=l3res["kinds"],
                    l3_refresh_cache_modes=l3res["cache_modes"], l3_refresh_omitted=l3res["omitted"],
                    l3_refresh_answers_changed=l3res["answers_changed_by_refresh"], l3_refresh_disagreements=len(l3fails),
-                   l3_refresh_rule="real binary over HTTP: server started on dataset A's cache files (k4: one kind of files missing), query set of 9 requests (route, alternatives, summary, accessibility; scenarios 1-3; both time types), files replaced by dataset B's (k5: one kind removed), GET /updateCache?names=all | schedules | scenarios,schedules, the queries again: every answer must equal the answer of a server newly started on the same directory; then A's files are put back, /updateCache again, and every answer must equal the start-up answer; replies of /updateCache must be the success object, the process must stay alive")
+                   l3_refresh_rule="real binary over HTTP: server started on dataset A's cache files (k4: one kind of files missing), query set of 9 requests (route, alternatives, summary, accessibility; scenarios 1-3; both time types), files replaced by dataset B's (k5: one kind removed), GET /updateCache?names=all | schedules | scenarios,schedules, the queries again: every answer must equal the answer of a server newly started on the same directory; then A's files are put back, /updateCache again, and every answer must equal the start-up answer; replies of /updateCache must be the success object, the process must stay alive. Kinds k6 (schedules named first), k7 (names=scenarios: scenario 2 disappears, then returns under another definition) and kr: RANDOM SEQUENCES of 3-4 steps (trips moved/dropped, scenario 2 redefined / removed / back, both, a new line), each refreshed with a randomly chosen cache-name list that covers what changed (never an upstream collection alone), every answer after every step compared with a freshly started server; requests on scenario 2 are planned on the trips its definition admits at that step")
     assumptions = {"C13": ["L2 part: one TransitData per history (table geofilters); the HTTP handlers, walking filters and per-thread calculator of the real process are covered by the L3 part (metamorphic: same request set in three orders + fresh servers), not by the model"],
                    "C14": ["lookup and publish are atomic (shared_mutex) and a thread keeps its shared_ptr: trusted runtime; data races, torn updates and lifetimes are exercised (forced schedules; free-running threads on a plain and on a ThreadSanitizer build in both tiers), not proved",
                            "alternatives re-fetch the set at every recalculation; the protocol model fetches once per request"],
